@@ -62,6 +62,12 @@ func newTokenizer(kind string) tokzr {
 			}
 		}
 		return t
+	case kind == "Q":
+		// an application-defined quote state registered with SetQuoteState only (the quote characters stay mapped to the
+		// stock state that reads them): decodeStrings decodes with the REGISTERED quote state
+		t := generic.NewGenericTokenizer()
+		t.SetQuoteState(&userQuoteState{inner: generic.NewGenericQuoteState(), tag: "user"})
+		return t
 	case kind == "P":
 		// the generic tokenizer with the library's C++ comment state (// … and /* … */) plugged in for '/'
 		t := generic.NewGenericTokenizer()
@@ -118,6 +124,21 @@ func newTokenizer(kind string) tokzr {
 		return t
 	}
 	panic("bad kind " + kind)
+}
+
+type userQuoteState struct {
+	inner tokenizers.IQuoteState
+	tag   string
+}
+
+func (u *userQuoteState) NextToken(scanner rio.IScanner, tokenizer tokenizers.ITokenizer) *tokenizers.Token {
+	return u.inner.NextToken(scanner, tokenizer)
+}
+func (u *userQuoteState) EncodeString(value string, quoteSymbol rune) string {
+	return u.inner.EncodeString(value, quoteSymbol)
+}
+func (u *userQuoteState) DecodeString(value string, quoteSymbol rune) string {
+	return "[" + u.tag + "]" + u.inner.DecodeString(value, quoteSymbol)
 }
 
 type hexNumberState struct{ inner tokenizers.INumberState }
